@@ -380,15 +380,6 @@ Qed.
 Lemma NoDup_app_r {A} : forall (a b : list A), NoDup (a ++ b) -> NoDup b.
 Proof. induction a as [|x t IH]; intros b H; [exact H|]. apply IH. now inversion H. Qed.
 
-Lemma nodupb_sound : forall l, nodupb l = true -> NoDup l.
-Proof.
-  induction l as [|x t IH]; cbn [nodupb]; intros H; [constructor|].
-  apply andb_true_iff in H. destruct H as [H1 H2]. constructor; [|now apply IH].
-  intros Hin. apply negb_true_iff in H1.
-  assert (existsb (Nat.eqb x) t = true); [|congruence].
-  apply existsb_exists. exists x. split; [exact Hin|apply Nat.eqb_refl].
-Qed.
-
 Lemma nat_cmp_total : total_order Nat.compare.
 Proof.
   split.
@@ -477,14 +468,36 @@ Proof.
   intros a x y. destruct (e_var x), (e_var y); lia.
 Qed.
 
-Lemma map_insert_in_keys : forall x m k,
-  In k (map e_key (map_insert x m)) -> k = e_key x \/ In k (map e_key m).
+(** what [HashMap::insert] does to any projection of the values *)
+Lemma map_insert_in {B} (f : entry -> B) : forall x m v,
+  In v (map f (map_insert x m)) -> v = f x \/ In v (map f m).
 Proof.
-  induction m as [|y t IH]; intros k H; cbn [map_insert] in H.
+  induction m as [|y t IH]; intros v H; cbn [map_insert] in H.
   - destruct H as [<-|[]]. now left.
   - destruct (key_eqb (e_key y) (e_key x)) eqn:E; cbn [map] in *.
     + destruct H as [<-|H]; [now left|right; now right].
     + destruct H as [<-|H]; [right; now left|]. apply IH in H. destruct H; [now left|right; now right].
+Qed.
+
+Lemma map_insert_nodup_f {B} (f : entry -> B) : forall x m,
+  NoDup (map f m) -> ~ In (f x) (map f m) -> NoDup (map f (map_insert x m)).
+Proof.
+  induction m as [|y t IH]; intros Hn Hx; cbn [map_insert].
+  - repeat constructor. intros [].
+  - cbn [map] in Hn, Hx. apply NoDup_cons_iff in Hn. destruct Hn as [Hy Hn].
+    destruct (key_eqb (e_key y) (e_key x)); cbn [map].
+    + constructor; [|exact Hn]. intros H. apply Hx. now right.
+    + constructor.
+      * intros H. apply map_insert_in in H. destruct H as [H|H]; [|contradiction].
+        apply Hx. left. exact H.
+      * apply IH; [exact Hn|]. intros H. apply Hx. now right.
+Qed.
+
+Lemma map_insert_forall (P : entry -> Prop) : forall x m, P x -> Forall P m -> Forall P (map_insert x m).
+Proof.
+  induction m as [|y t IH]; intros Hx Hm; cbn [map_insert]; [now repeat constructor|].
+  apply Forall_cons_iff in Hm. destruct Hm as [Hy Ht].
+  destruct (key_eqb (e_key y) (e_key x)); constructor; auto.
 Qed.
 
 Lemma map_insert_nodup : forall x m, NoDup (map e_key m) -> NoDup (map e_key (map_insert x m)).
@@ -494,7 +507,7 @@ Proof.
   - cbn [map] in Hn. apply NoDup_cons_iff in Hn. destruct Hn as [Hy Hn].
     destruct (key_eqb (e_key y) (e_key x)) eqn:E; cbn [map].
     + apply key_eqb_eq in E. rewrite <- E. now constructor.
-    + constructor; [|now apply IH]. intros H. apply map_insert_in_keys in H.
+    + constructor; [|now apply IH]. intros H. apply map_insert_in in H.
       destruct H as [H|H]; [|contradiction].
       rewrite H in E. rewrite (proj2 (key_eqb_eq _ _) eq_refl) in E. discriminate.
 Qed.
@@ -528,24 +541,125 @@ Proof.
   constructor. now apply filter_perm.
 Qed.
 
+(** [Ord] on pairs of [usize] *)
+Lemma pk_cmp_total : total_order pk_cmp.
+Proof.
+  split.
+  - intros [a b] [c d]. unfold pk_cmp. cbn [fst snd].
+    destruct (Nat.compare a c) eqn:E; try discriminate. intros H.
+    apply Nat.compare_eq in E, H. congruence.
+  - intros [a b] [c d]. unfold pk_cmp. cbn [fst snd].
+    rewrite (Nat.compare_antisym a c). destruct (Nat.compare a c); cbn [CompOpp]; try reflexivity.
+    apply Nat.compare_antisym.
+  - intros [a b] [c d] [e f]. unfold pk_cmp. cbn [fst snd].
+    destruct (Nat.compare a c) eqn:E1; try discriminate;
+    destruct (Nat.compare c e) eqn:E2; try discriminate; intros H1 H2.
+    + apply Nat.compare_eq in E1, E2. subst. rewrite Nat.compare_refl.
+      apply Nat.compare_lt_iff in H1, H2. apply Nat.compare_lt_iff. lia.
+    + apply Nat.compare_eq in E1. subst. now rewrite E2.
+    + apply Nat.compare_eq in E2. subst. now rewrite E1.
+    + apply Nat.compare_lt_iff in E1, E2.
+      assert (E : Nat.compare a e = Lt) by (apply Nat.compare_lt_iff; lia). now rewrite E.
+Qed.
+
 Theorem class_body_perm : forall e e',
-  NoDup (map e_pos e) -> Permutation e e' -> class_body e = class_body e'.
+  NoDup (map e_pk e) -> Permutation e e' -> class_body e = class_body e'.
 Proof.
   intros e e' Hn Hp. unfold class_body. f_equal.
-  exact (isort_key_perm Nat.compare e_pos nat_cmp_total e e' Hn Hp).
+  exact (isort_key_perm pk_cmp e_pk pk_cmp_total e e' Hn Hp).
+Qed.
+
+(** *** The recorded positions are pairwise distinct
+
+    Every entry made from the statement at body index [i] carries [(i+2, 2)] or [(i, 0)], so the index can be
+    read back from the pair ([idx_of]); different entries come from different indices; the constructor is the
+    only entry of kind 1, unless it takes over the pair of the [__init__] it replaces. *)
+Definition idx_of (pk : nat * nat) : nat := if Nat.eqb (snd pk) 2 then fst pk - 2 else fst pk.
+Definition idxf (e : entry) : nat := idx_of (e_pk e).
+
+Lemma stmt_entry_idx : forall i m, idxf (stmt_entry i m) = i.
+Proof.
+  intros i m. unfold idxf, idx_of, e_pk.
+  destruct m as [id|op|k [|]|]; cbn [stmt_entry e_pos e_kind fst snd Nat.eqb]; try reflexivity; lia.
+Qed.
+
+Lemma stmt_entry_kind : forall i m, e_kind (stmt_entry i m) <> 1.
+Proof. intros i m. destruct m as [id|op|k [|]|]; cbn [stmt_entry e_kind]; discriminate. Qed.
+
+Lemma entries_from_inv : forall ms i acc,
+  Forall (fun e => idxf e < i) acc -> NoDup (map idxf acc) -> Forall (fun e => e_kind e <> 1) acc ->
+  NoDup (map idxf (entries_from i ms acc)) /\ Forall (fun e => e_kind e <> 1) (entries_from i ms acc).
+Proof.
+  induction ms as [|m t IH]; intros i acc Hlt Hn Hk; cbn [entries_from]; [now split|].
+  apply IH.
+  - apply map_insert_forall.
+    + rewrite stmt_entry_idx. lia.
+    + eapply Forall_impl; [|exact Hlt]. cbn beta. intros e He. lia.
+  - apply map_insert_nodup_f; [exact Hn|].
+    rewrite stmt_entry_idx. intros Hin. apply in_map_iff in Hin. destruct Hin as [e [Ee He]].
+    rewrite Forall_forall in Hlt. specialize (Hlt e He). lia.
+  - apply map_insert_forall; [apply stmt_entry_kind|exact Hk].
+Qed.
+
+Lemma entries_inv : forall ms,
+  NoDup (map e_pk (entries ms)) /\ Forall (fun e => e_kind e <> 1) (entries ms).
+Proof.
+  intros ms.
+  destruct (entries_from_inv ms 0 [] (Forall_nil _) (NoDup_nil _) (Forall_nil _)) as [Hn Hk].
+  split; [|exact Hk].
+  apply (NoDup_map_inv idx_of). rewrite map_map. exact Hn.
+Qed.
+
+Lemma map_insert_replace_pk : forall x o m,
+  NoDup (map e_key m) -> In o m -> e_key o = e_key x -> e_pk x = e_pk o ->
+  map e_pk (map_insert x m) = map e_pk m.
+Proof.
+  induction m as [|y t IH]; intros Hn Ho Hk Hp; [contradiction|]. cbn [map_insert].
+  destruct (key_eqb (e_key y) (e_key x)) eqn:E; cbn [map].
+  - apply key_eqb_eq in E.
+    assert (y = o).
+    { apply (NoDup_map_inj e_key (y :: t) y o Hn); [now left|exact Ho|congruence]. }
+    subst y. now rewrite Hp.
+  - f_equal. cbn [map] in Hn. apply NoDup_cons_iff in Hn. destruct Hn as [_ Hn].
+    destruct Ho as [->|Ho].
+    + rewrite Hk in E. rewrite (proj2 (key_eqb_eq _ _) eq_refl) in E. discriminate.
+    + now apply IH.
+Qed.
+
+Lemma map_insert_append : forall x m,
+  (forall y, In y m -> key_eqb (e_key y) (e_key x) = false) -> map_insert x m = m ++ [x].
+Proof.
+  induction m as [|y t IH]; intros H; cbn [map_insert app]; [reflexivity|].
+  rewrite (H y (or_introl eq_refl)). f_equal. apply IH. intros z Hz. apply H. now right.
+Qed.
+
+Theorem positions_distinct : forall mk ms, NoDup (map e_pk (add_init mk (entries ms))).
+Proof.
+  intros mk ms. destruct (entries_inv ms) as [Hp Hkind]. assert (Hkeys := entries_nodup_keys ms).
+  unfold add_init. destruct mk; [|exact Hp].
+  destruct (find_init (entries ms)) as [o|] eqn:Ef.
+  - apply find_some in Ef. destruct Ef as [Ho Ko]. apply key_eqb_eq in Ko.
+    rewrite (map_insert_replace_pk _ o); try assumption.
+    unfold e_pk at 1. cbn [e_pos e_kind]. now destruct (e_pk o).
+  - rewrite map_insert_append.
+    2:{ intros y Hy. exact (find_none _ _ Ef y Hy). }
+    rewrite map_app. cbn [map]. eapply Permutation_NoDup; [apply Permutation_cons_append|].
+    constructor; [|exact Hp].
+    intros Hin. apply in_map_iff in Hin. destruct Hin as [e [Ee He]].
+    rewrite Forall_forall in Hkind. apply (Hkind e He).
+    unfold e_pk in Ee. cbn [e_pos e_kind fst snd] in Ee. congruence.
 Qed.
 
 (** The whole of [extract_class]'s ordering: [e1]/[e1'] are two iteration orders of the map before the
     constructor is inserted (used by [find] and [max]), [e2]/[e2'] two iteration orders of the final map
-    (used by [values().sorted_by_key]).  Without a tie in the recorded positions the body is the same. *)
+    (used by [values().sorted_by_key]).  The class body is the same - for every class body, no side condition. *)
 Theorem class_body_deterministic : forall mk ms e1 e1' e2 e2',
-  has_tie mk ms = false ->
   Permutation (entries ms) e1 -> Permutation (entries ms) e1' ->
   Permutation (add_init mk e1) e2 -> Permutation (add_init mk e1') e2' ->
   class_body e2 = class_body e2'.
 Proof.
-  intros mk ms e1 e1' e2 e2' Ht H1 H1' H2 H2'.
-  unfold has_tie in Ht. apply negb_false_iff in Ht. apply nodupb_sound in Ht.
+  intros mk ms e1 e1' e2 e2' H1 H1' H2 H2'.
+  assert (Ht := positions_distinct mk ms).
   assert (Hk := entries_nodup_keys ms).
   assert (P2 : Permutation (add_init mk (entries ms)) e2).
   { etransitivity; [apply add_init_perm; [exact Hk|exact H1]|exact H2]. }
@@ -556,30 +670,20 @@ Proof.
   - etransitivity; [apply Permutation_sym; exact P2|exact P2'].
 Qed.
 
-(** D15: body [method, field, field, method, field]; the first method (index 0, recorded 0+2) ties with the
-    field at index 2.  Two iteration orders of the same map give two different class bodies. *)
+(** Historical (D15, fixed by /repo commit 88d54a3): with the OLD numbering, which compared the slot alone, the body
+    [method, field, field, method, field] had the first method (slot 0+2) tie with the field at index 2, and two
+    iteration orders of the same map gave two different class bodies.  This is a statement about
+    [class_body_old], not about the current code. *)
 Definition d15_members : list member :=
   [MFun "m1"; MVar "f1" true; MVar "f2" true; MFun "m2"; MVar "f3" true].
 
-Theorem class_body_refuted :
+Theorem d15_old_numbering_refuted :
   exists ms e e',
     Permutation (add_init false (entries ms)) e /\ Permutation (add_init false (entries ms)) e' /\
-    class_body e <> class_body e'.
+    class_body_old e <> class_body_old e' /\ class_body e = class_body e'.
 Proof.
   exists d15_members, (add_init false (entries d15_members)), (rev (add_init false (entries d15_members))).
-  split; [reflexivity|]. split; [apply Permutation_rev|]. vm_compute. discriminate.
-Qed.
-
-(** a generated constructor ties too: [field, method, field] with parents -> __init__ gets max(field pos)+1 = 3,
-    which is the method's 1+2 *)
-Theorem class_body_init_refuted :
-  exists ms e e',
-    Permutation (add_init true (entries ms)) e /\ Permutation (add_init true (entries ms)) e' /\
-    class_body e <> class_body e'.
-Proof.
-  exists [MVar "f1" true; MFun "m1"; MVar "f2" true].
-  eexists. exists (rev (add_init true (entries [MVar "f1" true; MFun "m1"; MVar "f2" true]))).
-  split; [reflexivity|]. split; [apply Permutation_rev|]. vm_compute. discriminate.
+  split; [reflexivity|]. split; [apply Permutation_rev|]. split; vm_compute; [discriminate|reflexivity].
 Qed.
 
 (* ------------------------------------------------------------------------------------------------ *)
